@@ -19,9 +19,17 @@ import json
 from collections import Counter, deque
 
 
+SLOW_BASE = 10000
+
+
 class SimNet:
     def __init__(self, schedule=(), wire=False, max_steps=20000, tick_budget=0):
+        # leading entries >= SLOW_BASE declare "slow" computations (index into the sorted names, mod n): the
+        # scheduler serves them last, which produces the "one neighbour much slower than the others" executions
         self.schedule = list(schedule)
+        self._slow_idx = []
+        while self.schedule and self.schedule[0] >= SLOW_BASE:
+            self._slow_idx.append(self.schedule.pop(0) - SLOW_BASE)
         self.wire = wire
         self.max_steps = max_steps
         self.tick_budget = tick_budget      # ticks fired when nothing else is enabled
@@ -43,6 +51,7 @@ class SimNet:
         self.on_finished = None             # optional callback(name)
         self.after_step = None              # optional callback(simnet)
         self.wire_failures = []
+        self.slow = set()                   # computations served last: canonical order puts them at the end
         self.step_kind = None               # kind of the action being run (start/deliver/lane/tick)
         self.halt = False                   # an after_step callback may set it to end the run
         self.trace = None                   # set to [] to keep (seq, step, src, dst, msg, sender cycle)
@@ -110,14 +119,19 @@ class SimNet:
 
     # ----------------------------------------------------------------- scheduling
     def enabled(self, with_ticks):
-        acts = [("start", n) for n in sorted(self.comps) if n not in self.started]
+        if self._slow_idx and self.comps:
+            order = sorted(self.comps)
+            self.slow = self.slow | {order[i % len(order)] for i in self._slow_idx}
+            self._slow_idx = []
+        slow = self.slow
+        acts = [("start", n) for n in sorted(self.comps, key=lambda n: (n in slow, n)) if n not in self.started]
         dels = []
         for dst, q in self.lane.items():
             if q:
-                dels.append((q[0][0], ("lane", dst)))
+                dels.append(((dst in slow, q[0][0]), ("lane", dst)))
         for (src, dst), q in self.channels.items():
             if q and not self.lane.get(dst):
-                dels.append((q[0][0], ("deliver", src, dst)))
+                dels.append(((dst in slow, q[0][0]), ("deliver", src, dst)))
         dels.sort(key=lambda x: x[0])
         acts += [d for _, d in dels]
         if with_ticks:
@@ -191,7 +205,8 @@ class SimNet:
 
     def schedule_label(self):
         n = len(self.schedule)
-        return "sched:" + ("canonical" if not any(self.schedule) else "short" if n <= 6 else "long")
+        return "sched:" + ("canonical" if not any(self.schedule) else "short" if n <= 6 else "long") + (
+            "+slow" if self.slow else "")
 
 
 def build_computations(dcop, graph_module, algo, params=None, mode=None):
